@@ -1,6 +1,8 @@
 // C49 native harness (SipHash-2-4): the real CSipHasher / PresaltedSipHasher (crypto/siphash.cpp of the working tree) vs the extracted C text vs an independent byte-oriented
 // reference written from the SipHash paper, plus the paper's test vector (key 00..0f, message 00..0e -> a129ca6149be45e5).
 #include <crypto/siphash.h>
+#include <crypto/chacha20.h>
+#include <span>
 #include <uint256.h>
 #include "replay_util.h"
 #define BAD(...) do { rv::g_stats.real_violations++; if (rv::g_stats.real_violations <= 8) { std::printf("REAL-VIOLATION " __VA_ARGS__); std::printf("\n"); } } while (0)
@@ -15,6 +17,26 @@ static uint64_t ref_siphash24(uint64_t k0, uint64_t k1, const unsigned char* in,
     auto round = [&]() { v0 += v1; v1 = rotl(v1, 13); v1 ^= v0; v0 = rotl(v0, 32); v2 += v3; v3 = rotl(v3, 16); v3 ^= v2; v0 += v3; v3 = rotl(v3, 21); v3 ^= v0; v2 += v1; v1 = rotl(v1, 17); v1 ^= v2; v2 = rotl(v2, 32); };
     size_t full = len / 8; for (size_t i = 0; i < full; i++) { uint64_t m = 0; for (int k = 0; k < 8; k++) m |= (uint64_t)in[8 * i + k] << (8 * k); v3 ^= m; round(); round(); v0 ^= m; }
     uint64_t b = (uint64_t)len << 56; for (size_t k = 0; k < len % 8; k++) b |= (uint64_t)in[8 * full + k] << (8 * k); v3 ^= b; round(); round(); v0 ^= b; v2 ^= 0xff; round(); round(); round(); round(); return v0 ^ v1 ^ v2 ^ v3;
+}
+// ChaCha20 (original DJB layout: 64-bit block counter in words 12..13, 64-bit nonce in 14..15; Seek maps (nonce.first, nonce.second, counter) onto it) -- reference after RFC 8439 2.3
+static void ref_chacha_block(const unsigned char key[32], uint64_t counter_lo32, uint32_t w13, uint32_t w14, uint32_t w15, unsigned char out[64])
+{
+    auto rl = [](uint32_t x, int n) { return (x << n) | (x >> (32 - n)); }; uint32_t s[16] = {0x61707865, 0x3320646e, 0x79622d32, 0x6b206574}; for (int i = 0; i < 8; i++) s[4 + i] = (uint32_t)key[4 * i] | (uint32_t)key[4 * i + 1] << 8 | (uint32_t)key[4 * i + 2] << 16 | (uint32_t)key[4 * i + 3] << 24;
+    s[12] = (uint32_t)counter_lo32; s[13] = w13; s[14] = w14; s[15] = w15; uint32_t x[16]; for (int i = 0; i < 16; i++) x[i] = s[i];
+    auto qr = [&](int a, int b, int c, int d) { x[a] += x[b]; x[d] ^= x[a]; x[d] = rl(x[d], 16); x[c] += x[d]; x[b] ^= x[c]; x[b] = rl(x[b], 12); x[a] += x[b]; x[d] ^= x[a]; x[d] = rl(x[d], 8); x[c] += x[d]; x[b] ^= x[c]; x[b] = rl(x[b], 7); };
+    for (int i = 0; i < 10; i++) { qr(0, 4, 8, 12); qr(1, 5, 9, 13); qr(2, 6, 10, 14); qr(3, 7, 11, 15); qr(0, 5, 10, 15); qr(1, 6, 11, 12); qr(2, 7, 8, 13); qr(3, 4, 9, 14); }
+    for (int i = 0; i < 16; i++) { uint32_t v = x[i] + s[i]; out[4 * i] = (unsigned char)v; out[4 * i + 1] = (unsigned char)(v >> 8); out[4 * i + 2] = (unsigned char)(v >> 16); out[4 * i + 3] = (unsigned char)(v >> 24); }
+}
+static void test_chacha(rv::Rng& r)
+{
+    unsigned char key[32]; for (auto& c : key) c = (unsigned char)r.next(); uint32_t n0 = (uint32_t)r.next(); uint64_t n1 = r.next(); static const uint32_t CS[] = {0, 1, 7, 0xfffffffe, 0xffffffff}; uint32_t ctr = CS[r.below(5)];
+    size_t len = 64 * (1 + r.below(4)) + (r.below(2) ? r.below(64) : 0); std::vector<std::byte> in(len), one(len), chunked(len); for (auto& b : in) b = (std::byte)r.next();
+    ChaCha20 a{std::span<const std::byte>((const std::byte*)key, 32)}; a.Seek({n0, n1}, ctr); a.Crypt(in, one);
+    ChaCha20 b{std::span<const std::byte>((const std::byte*)key, 32)}; b.Seek({n0, n1}, ctr); size_t pos = 0; while (pos < len) { size_t k = std::min(len - pos, (size_t)(r.below(3) ? 64 : 1 + r.below(130))); b.Crypt(std::span<const std::byte>(in).subspan(pos, k), std::span<std::byte>(chunked).subspan(pos, k)); pos += k; }
+    std::vector<std::byte> want(len); uint64_t c64 = ((uint64_t)n0 << 32) | ctr; for (size_t blk = 0; blk * 64 < len; blk++) { unsigned char ks[64]; uint64_t c = c64 + blk; ref_chacha_block(key, (uint32_t)c, (uint32_t)(c >> 32), (uint32_t)n1, (uint32_t)(n1 >> 32), ks); for (size_t k = 0; k < 64 && blk * 64 + k < len; k++) want[blk * 64 + k] = in[blk * 64 + k] ^ (std::byte)ks[k]; }
+    rv::g_stats.inputs++;
+    if (one != want) BAD("ChaCha20::Crypt of %zu bytes from block counter %08x differs from the reference keystream", len, ctr);
+    if (chunked != one) BAD("ChaCha20::Crypt of %zu bytes from block counter %08x: chunked calls give a different result than one call (the block counter is not carried from call to call)", len, ctr);
 }
 int main(int argc, char** argv)
 {
@@ -34,6 +56,8 @@ int main(int argc, char** argv)
         CSipHasher hw(k0, k1); xHasher xw{{0, 0, 0, 0}, 0, 0}; xc_SipHashState_init(&xw.st, k0, k1); for (int k = 0; k < 4; k++) { uint64_t w = 0; for (int b = 0; b < 8; b++) w |= (uint64_t)msg[8 * k + b] << (8 * b); hw.Write(w); xc_CSipHasher_Write64(&xw, w); }
         if (hw.Finalize() != xc_CSipHasher_Finalize(&xw)) DIS("Write(uint64)"); if (hw.Finalize() != w32) BAD("CSipHasher with four Write(uint64) = %016llx, SipHash-2-4 of the 32 bytes is %016llx", (unsigned long long)hw.Finalize(), (unsigned long long)w32);
     }
+    { unsigned char k0[32] = {0}; unsigned char blk[64]; for (int i = 0; i < 32; i++) k0[i] = (unsigned char)i; ref_chacha_block(k0, 1, 0x09000000, 0x4a000000, 0, blk); rv::g_stats.inputs++; if (blk[0] != 0x10 || blk[1] != 0xf1 || blk[2] != 0xe7 || blk[3] != 0xe4 || blk[63] != 0x4e) DIS("the harness ChaCha20 reference does not reproduce RFC 8439 2.3.2"); }
+    for (uint64_t it = 0; it < n / 4; it++) test_chacha(r);
     rv::report();
     return rv::g_stats.real_violations ? 1 : (rv::g_stats.disagreements ? 3 : 0);
 }
